@@ -247,8 +247,11 @@ class ECollection(PyEcoreValue):
             owner.__dict__[opposite_name] \
                  ._set(new_value, update_opposite=False)
 
-    def remove(self, value, update_opposite=True):
+    def _take_out(self, value):
         super().remove(value)
+
+    def remove(self, value, update_opposite=True):
+        self._take_out(value)
         if self.is_ref:
             self._update_container(None, previous_value=value)
             if update_opposite:
@@ -456,6 +459,57 @@ class EAbstractSet(ECollection):
                                        kind=Kind.ADD_MANY))
     extend = update
 
+    # The other mutators of a set (discard, the *_update family and, through
+    # them, the operators -=, &=, ^= and |=) rewrite the items themselves:
+    # routed through remove() and update(), they are checked, reach the other
+    # end and the container, and are notified like any other change.
+    def _take_out(self, value):
+        if value not in self:
+            raise KeyError(value)
+        super().discard(value)
+
+    def discard(self, value):
+        if value in self:
+            self.remove(value)
+
+    def difference_update(self, *sets):
+        for value in [x for other in sets for x in other]:
+            self.discard(value)
+
+    def intersection_update(self, other):
+        other = ordered_set.OrderedSet(other)
+        for value in [x for x in self if x not in other]:
+            self.remove(value)
+
+    def symmetric_difference_update(self, other):
+        other = list(other)
+        for value in other:
+            self.check(value)
+        other = ordered_set.OrderedSet(other)
+        incoming = [x for x in other if x not in self]
+        for value in [x for x in self if x in other]:
+            self.remove(value)
+        if incoming:
+            self.update(incoming)
+
+    # (MutableSet's operators add and discard element by element: a value
+    # refused half-way would leave the operation half-done)
+    def __ior__(self, other):
+        self.update(other)
+        return self
+
+    def __isub__(self, other):
+        self.difference_update(other)
+        return self
+
+    def __iand__(self, other):
+        self.intersection_update(other)
+        return self
+
+    def __ixor__(self, other):
+        self.symmetric_difference_update(other)
+        return self
+
 
 class EOrderedSet(EAbstractSet, ordered_set.OrderedSet):
     def __init__(self, owner, efeature=None):
@@ -468,6 +522,11 @@ class EOrderedSet(EAbstractSet, ordered_set.OrderedSet):
     @staticmethod
     def subcopy(sublist):
         return ordered_set.OrderedSet(sublist)
+
+    @classmethod
+    def _from_iterable(cls, it):
+        # what the set operators (-, &, ^, |) build: a plain set, as copy()
+        return ordered_set.OrderedSet(it)
 
 
 class ESet(EOrderedSet):
